@@ -127,7 +127,7 @@ func (m *Model) RunLexMode(s *Sink, rule string) {
 			if len(show) > 4 {
 				show = append(append([]string{}, show[:4]...), "...")
 			}
-			key := fmt.Sprintf("%s|%s(%s) builds code tokens only in code mode", fnKey(nt), sc.Name(), argConsts(c))
+			key := fmt.Sprintf("%s|%s(%s) builds code tokens only in code mode", fnKey(nt), canonFnName(sc), argConsts(c))
 			inCode := false
 			for _, f := range expandFacts(factsAt(b)) {
 				if fieldPathOf(f.Cond) == ".isHTML" && !f.Holds {
@@ -137,7 +137,7 @@ func (m *Model) RunLexMode(s *Sink, rule string) {
 			if inCode {
 				s.OK(rule, key, m.InstrPos(c), "the call is dominated by !l.isHTML; tokens: %v", show)
 			} else {
-				s.Violation(rule, key, m.InstrPos(c), "NextToken can call %s, which builds code tokens %v, while lexing plain text (no dominating !l.isHTML test): such characters in text would be tokenised instead of being emitted (e.g. \"}}\" in text disappears)", sc.Name(), show)
+				s.Violation(rule, key, m.InstrPos(c), "NextToken can call %s, which builds code tokens %v, while lexing plain text (no dominating !l.isHTML test): such characters in text would be tokenised instead of being emitted (e.g. \"}}\" in text disappears)", canonFnName(sc), show)
 			}
 		}
 	}
@@ -173,7 +173,7 @@ func (m *Model) tokenClasses(v ssa.Value, d int, seen map[ssa.Value]bool) map[st
 			add(m.returnTokenClasses(c, x.Index, d+1, seen))
 		}
 	case *ssa.Lookup:
-		if g, ok := derefGlobal(x.X); ok && g.Name() == "directives" {
+		if g, ok := derefGlobal(x.X); ok && canonGlobalName(g) == "directives" {
 			res["(directive token)"] = true
 		} else {
 			res["(computed code token)"] = true
@@ -360,7 +360,7 @@ func (m *Model) RunTextFlow(s *Sink, rule string) {
 				if !ok || call.Call.StaticCallee() == nil {
 					return false
 				}
-				nm := call.Call.StaticCallee().Name()
+				nm := canonFnName(call.Call.StaticCallee())
 				return nm == "isDirectiveToken" || nm == "areBracesToken"
 			}, 0)
 			key := fk + "|only the escape backslash is removed"
@@ -433,7 +433,7 @@ func (m *Model) RunTextFlow(s *Sink, rule string) {
 					continue
 				}
 				if fa, isFa := st.Addr.(*ssa.FieldAddr); isFa && strings.HasSuffix(derefTypeString(fa.X.Type()), "object.HTML") {
-					if c, isC := st.Val.(*ssa.Call); isC && c.Call.StaticCallee() != nil && c.Call.StaticCallee().Name() == "String" && strings.HasSuffix(typeStr(c.Call.Args[0].Type()), "ast.HTMLStmt") {
+					if c, isC := st.Val.(*ssa.Call); isC && c.Call.StaticCallee() != nil && canonFnName(c.Call.StaticCallee()) == "String" && strings.HasSuffix(typeStr(c.Call.Args[0].Type()), "ast.HTMLStmt") {
 						ok = true
 					}
 				}
@@ -457,7 +457,7 @@ func (m *Model) RunTextFlow(s *Sink, rule string) {
 		ok := false
 		for _, b := range nt.Blocks {
 			for _, in := range b.Instrs {
-				if c, isC := in.(*ssa.Call); isC && c.Call.StaticCallee() != nil && c.Call.StaticCallee().Name() == "newToken" {
+				if c, isC := in.(*ssa.Call); isC && c.Call.StaticCallee() != nil && canonFnName(c.Call.StaticCallee()) == "newToken" {
 					if k, isK := c.Call.Args[1].(*ssa.Const); isK && tokenConstNames[k.Int64()] == "HTML" {
 						if src, isS := c.Call.Args[2].(*ssa.Call); isS && src.Call.StaticCallee() == rh {
 							ok = true
